@@ -131,6 +131,37 @@ class Names:
             return out
         return self._memo("generators", go)
 
+    def exclusive_helpers(self, key):
+        """private loop-free helpers that only `key` (or helpers of `key`) calls: read as part of it whatever their size"""
+        def go():
+            from .. import cfg as cfgmod
+            f = self.f
+            callers = {}
+            for k2, b2 in f.bodies.items():
+                if b2.crate.startswith("cozy_chess"):
+                    owner = k2.split("::{closure")[0]
+                    for bb_, t_ in b2.calls():
+                        cn = callee_name(t_)
+                        if cn:
+                            callers.setdefault(cn, set()).add(owner)
+            keep = {self.king_safe_on, self.can_castle, self.target_squares, self.roster} | set(self.generators.values())
+            out = set()
+            work = [key]
+            while work:
+                k = work.pop()
+                for h in local_callees(f, k):
+                    hb = f.bodies[h]
+                    if h in out or h in keep or self._has_listener(h) or f.fns.get(h, {}).get("pub"):
+                        continue
+                    if not callers.get(h, set()) <= ({key} | out):
+                        continue
+                    if cfgmod.natural_loops(hb):
+                        continue
+                    out.add(h)
+                    work.append(h)
+            return out
+        return self._memo(("exclusive", key), go)
+
     @property
     def slider_type_param(self):
         b = self.f.bodies[self.generators["Slider"]]
@@ -246,7 +277,7 @@ class Names:
         def go():
             f = self.f
             cands = set()
-            for c in local_callees(f, self.generators["King"]):
+            for c in local_callees(f, self.generators["King"], transitive=True, stop=lambda n: self._has_listener(n)):
                 a, r = sig(f.bodies[c])
                 if r == "bool" and len(a) == 2 and a[1] == SQ and a[0].lstrip("&") == B:
                     cands.add(c)
@@ -258,7 +289,7 @@ class Names:
         def go():
             f = self.f
             cands = set()
-            for c in local_callees(f, self.generators["King"]):
+            for c in local_callees(f, self.generators["King"], transitive=True, stop=lambda n: self._has_listener(n)):
                 a, r = sig(f.bodies[c])
                 if r == "bool" and len(a) == 4 and a[0].lstrip("&") == B and a[2] == FILE and a[3] == FILE:
                     cands.add(c)
